@@ -125,32 +125,41 @@ Section LevelSet.
 
   Record lpath := { lp_points : V; lp_length : K; lp_tria : list nat; lp_maxdeg : nat }.
 
+  (* everything up to the ordered, not yet merged path: points in path order, the triangle of every segment, the length *)
+  Record lraw := { lr_points : V; lr_tria : list nat; lr_length : K; lr_maxdeg : nat }.
+  Definition level_path_raw (v : V) (ts : list tri) (f : list K) (lvl : K) : result lraw :=
+    let cr := crossings_idx f lvl ts 0 in
+    let gg1 := map (fun '(_, (g0, g1, _)) => skey g0 g1) cr in
+    let gg2 := map (fun '(_, (g0, _, g2)) => skey g0 g2) cr in
+    let uniq := unique_pairs (gg1 ++ gg2) in
+    let p := map (fun '(a, b) => edge_point v f lvl a b) uniq in
+    let edges := map (fun '(k1, k2) => (idx_or0 k1 uniq, idx_or0 k2 uniq)) (combine gg1 gg2) in
+    let llength := sumK o (map (fun '(i, j) => dist (getv o p i) (getv o p j)) edges) in
+    match reduce_edges_to_path edges with
+    | Err e => Err e
+    | Ok (path, eidx) =>
+        Ok {| lr_points := map (getv o p) path; lr_tria := map (fun e => fst (nth e cr (0, (0, 0, 0)))) eidx;
+              lr_length := llength; lr_maxdeg := max_degree edges |}
+    end.
+
   (* eps = 1e-6 on squared distances *)
   Definition level_path (eps : K) (v : V) (ts : list tri) (ncols : nat) (f : list K) (lvl : K) (get_tria_idx : bool) (n_points : nat)
     : result lpath :=
     if negb (Nat.eqb ncols 1) then Err ValueError
     else
-      let cr := crossings_idx f lvl ts 0 in
-      let gg1 := map (fun '(_, (g0, g1, _)) => skey g0 g1) cr in
-      let gg2 := map (fun '(_, (g0, _, g2)) => skey g0 g2) cr in
-      let uniq := unique_pairs (gg1 ++ gg2) in
-      let p := map (fun '(a, b) => edge_point v f lvl a b) uniq in
-      let edges := map (fun '(k1, k2) => (idx_or0 k1 uniq, idx_or0 k2 uniq)) (combine gg1 gg2) in
-      let llength := sumK o (map (fun '(i, j) => dist (getv o p i) (getv o p j)) edges) in
-      match reduce_edges_to_path edges with
+      match level_path_raw v ts f lvl with
       | Err e => Err e
-      | Ok (path, eidx) =>
-          let path3d := map (getv o p) path in
+      | Ok r =>
+          let path3d := lr_points r in
           let dd := map (fun '(a, b) => norm2 o (vsub o a b)) (consecutive path3d) ++ [one o] in
           let keep := map (fun d => ltb o eps d) dd in
           let pts := map fst (filter snd (combine path3d keep)) in
-          let tri_idx := map (fun e => fst (nth e cr (0, (0, 0, 0)))) eidx in
-          let tri_kept := map fst (filter snd (combine tri_idx keep)) in
+          let tri_kept := map fst (filter snd (combine (lr_tria r) keep)) in
           if get_tria_idx then
-            (if Nat.eqb n_points 0 then Ok {| lp_points := pts; lp_length := llength; lp_tria := tri_kept; lp_maxdeg := max_degree edges |}
+            (if Nat.eqb n_points 0 then Ok {| lp_points := pts; lp_length := lr_length r; lp_tria := tri_kept; lp_maxdeg := lr_maxdeg r |}
              else Err ValueError)
           else
             Ok {| lp_points := if Nat.eqb n_points 0 then pts else iterative_resample pts n_points;
-                  lp_length := llength; lp_tria := []; lp_maxdeg := max_degree edges |}
+                  lp_length := lr_length r; lp_tria := []; lp_maxdeg := lr_maxdeg r |}
       end.
 End LevelSet.
